@@ -136,8 +136,9 @@ theorem C17_read_only (s : Img) (tasks : List Task) (anyTask : Bool) (st' : Stor
     intro d; simp [objContent, hbuf]
   have hsig : ∀ t : Task, t.signatures ph facts { s with st := st' } = t.signatures ph facts s := by
     intro t
+    have hemp : ({ s with st := st' } : Img).isEmpty = s.isEmpty := rfl
     cases t <;> simp only [Task.signatures, getGroupSignatures, getObjectSignatures, getDescriptors,
-      dataReadable, hobj]
+      dataReadable, hobj, hemp]
   have hall : ∀ ts : List Task, allTaskFingerprints ph facts { s with st := st' } ts =
       allTaskFingerprints ph facts s ts := by
     intro ts
